@@ -25,8 +25,16 @@ use serde_json::{json, Value};
 
 const TAPE_LEN: usize = 3000;
 
-/// Lines of one case: `label` line first, then one line per call.
-fn case_lines(tape: &[u32]) -> Vec<String> {
+/// The generated case in explicit (generator-independent) form.
+struct Case {
+    text: String,
+    target: GameMode,
+    dspec: rosu_verif::gen::diff::DiffSpec,
+    score: rosu_verif::gen::score::ScoreSpec,
+    labels: Vec<String>,
+}
+
+fn gen_case(tape: &[u32]) -> Case {
     let mut t = Tape::new(tape.to_vec());
     let mut spec = gen_map(&mut t, &MapProfile::small(ALL_MODES, 60));
     // long-gap family: breaks of 10 s .. 20 h inside the suspicion limit => runs of zero sections
@@ -39,23 +47,46 @@ fn case_lines(tape: &[u32]) -> Vec<String> {
             2 => t.range(7_200_000, 36_000_000),
             _ => t.range(36_000_000, 72_000_000),
         } as f64;
-        for o in spec.objects.iter_mut().skip(at) {
-            o.time += gap;
-            if let ObjKind::Spinner { end } | ObjKind::Hold { end } = &mut o.kind {
-                *end += gap;
-            }
-        }
+        shift_from(&mut spec, at, gap);
     }
     let target = pick_target(&mut t, spec.mode);
-    let dspec = gen_diff(&mut t, &DiffProfile::realistic().passed(spec.objects.len() as u32), target);
+    let mut dspec = gen_diff(&mut t, &DiffProfile::realistic().passed(spec.objects.len() as u32), target);
+    // ultra-gap class: a gap of 72-130 minutes at clock rate 0.01, i.e. 5-9 days of clock-adjusted
+    // emptiness = more than 2^20 consecutive zero sections (about 10 MB per skill in the raw layout)
+    let ultra = t.chance(1, 100) && spec.objects.len() >= 2;
+    if ultra {
+        let at = 1 + t.below_usize(spec.objects.len() - 1);
+        let gap = t.range(4_300_000, 7_800_000) as f64;
+        shift_from(&mut spec, at, gap);
+        dspec.clock_rate = Some(0.01);
+    }
     let score = gen_score_spec(&mut t, spec.objects.len() as u32);
-    let map = spec.decode();
-    let d = dspec.build(target);
-    let mut out = Vec::new();
     let mut labels = vec![format!("mode{}", spec.mode), format!("target={target:?}")];
     if long_gap {
         labels.push("long-gap-family".into());
     }
+    if ultra {
+        labels.push("ultra-gap(>2^20 zero sections)".into());
+    }
+    Case { text: spec.render(), target, dspec, score, labels }
+}
+
+fn shift_from(spec: &mut rosu_verif::gen::map::MapSpec, at: usize, gap: f64) {
+    for o in spec.objects.iter_mut().skip(at) {
+        o.time += gap;
+        if let ObjKind::Spinner { end } | ObjKind::Hold { end } = &mut o.kind {
+            *end += gap;
+        }
+    }
+}
+
+/// Lines of one case: `label` line first, then one line per call.
+fn case_lines(c: &Case) -> Vec<String> {
+    let (target, dspec, score) = (c.target, &c.dspec, &c.score);
+    let map = rosu_pp::Beatmap::from_bytes(c.text.as_bytes()).expect("decode");
+    let d = dspec.build(target);
+    let mut out = Vec::new();
+    let mut labels = c.labels.clone();
     let full = std::env::var_os("VERIF_FULL_LINES").is_some();
     let run = |name: &str, f: &dyn Fn() -> Result<String, String>| -> String {
         match guarded(f) {
@@ -109,8 +140,19 @@ fn main() {
     let seed: u64 = get("--seed").and_then(|s| s.parse().ok()).or_else(|| std::env::var("VERIF_SEED").ok().and_then(|s| s.parse().ok())).unwrap_or(0);
     if let Some(path) = get("--replay") {
         let v: Value = serde_json::from_str(&std::fs::read_to_string(&path).expect("read")).expect("json");
-        let tape: Vec<u32> = v.get("tape").and_then(Value::as_array).map(|a| a.iter().map(|x| x.as_u64().unwrap_or(0) as u32).collect()).unwrap_or_default();
-        for l in case_lines(&tape) {
+        let case = if let Some(dv) = v.get("direct").filter(|d| !d.is_null()) {
+            Case {
+                text: dv.get("osu").and_then(Value::as_str).unwrap_or("").to_string(),
+                target: rosu_verif::gen::diff::mode_from_name(dv.get("target").and_then(Value::as_str).unwrap_or("Osu")),
+                dspec: rosu_verif::gen::diff::DiffSpec::from_json(dv.get("difficulty").unwrap_or(&Value::Null)).expect("difficulty"),
+                score: rosu_verif::gen::score::ScoreSpec::default(),
+                labels: vec!["direct".into()],
+            }
+        } else {
+            let tape: Vec<u32> = v.get("tape").and_then(Value::as_array).map(|a| a.iter().map(|x| x.as_u64().unwrap_or(0) as u32).collect()).unwrap_or_default();
+            gen_case(&tape)
+        };
+        for l in case_lines(&case) {
             println!("0 {l}");
         }
         return;
@@ -118,7 +160,11 @@ fn main() {
     let count: usize = get("--count").and_then(|s| s.parse().ok()).unwrap_or(100);
     let tapes = seeded_tapes(seed ^ 0xC10, count, TAPE_LEN);
     if let Some(i) = get("--dump").and_then(|s| s.parse::<usize>().ok()) {
-        let v = json!({"property": get("--property").unwrap_or_else(|| "C10".into()), "subcheck": "feature-builds", "seed": seed, "index": i, "tape": tapes[i], "lines": case_lines(&tapes[i])});
+        let c = gen_case(&tapes[i]);
+        let v = json!({"property": get("--property").unwrap_or_else(|| "C10".into()), "subcheck": "feature-builds", "seed": seed, "index": i, "tape": tapes[i],
+                       "direct": {"osu": c.text, "target": rosu_verif::gen::diff::mode_name(c.target), "difficulty": c.dspec.to_json()},
+                       "note": "the direct form replays difficulty/strains/gradual with a default score specification",
+                       "lines": case_lines(&c).iter().map(|l| l.chars().take(400).collect::<String>()).collect::<Vec<_>>()});
         let path = get("--out").unwrap_or_else(|| "workload-case.json".into());
         if let Some(parent) = std::path::Path::new(&path).parent() {
             let _ = std::fs::create_dir_all(parent);
@@ -136,7 +182,7 @@ fn main() {
                 if i >= count {
                     break;
                 }
-                *results[i].lock().unwrap() = case_lines(&tapes[i]);
+                *results[i].lock().unwrap() = case_lines(&gen_case(&tapes[i]));
             });
         }
     });
